@@ -20,8 +20,42 @@ ASSUMPTIONS = [
 LEAVES = ['para', 'para2', 'atx', 'setext', 'hr', 'fence', 'fence-unclosed-last', 'icode', 'table', 'html6', 'html1', 'html2', 'html7', 'refdef+use', 'list-in-item']
 CONTAINERS = ['quote', 'tight', 'loose']
 
+# boundary strata: shapes that sit ON a spec boundary, each pinned by a numbered 0.30 example at top level (the sweep
+# puts them under every container path).  (lines, expected HTML)
+BOUNDARY = [
+    (['####### foo'], '<p>####### foo</p>'), (['#5 bolt', '', '#hashtag'], '<p>#5 bolt</p>\n<p>#hashtag</p>'), (['\\## foo'], '<p>## foo</p>'),
+    ([' ### foo', '  ## foo', '   # foo'], '<h3>foo</h3>\n<h2>foo</h2>\n<h1>foo</h1>'), (['foo', '    # bar'], '<p>foo\n# bar</p>'),
+    (['## foo ##', '  ###   bar    ###'], '<h2>foo</h2>\n<h3>bar</h3>'), (['### foo ### b'], '<h3>foo ### b</h3>'), (['# foo#'], '<h1>foo#</h1>'),
+    (['### foo \\###', '## foo #\\##', '# foo \\#'], '<h3>foo ###</h3>\n<h2>foo ###</h2>\n<h1>foo #</h1>'),
+    (['+++'], '<p>+++</p>'), (['==='], '<p>===</p>'), (['--', '**', '__'], '<p>--\n**\n__</p>'),
+    ([' ***', '  ***', '   ***'], '<hr />\n<hr />\n<hr />'), (['Foo', '    ***'], '<p>Foo\n***</p>'),
+    (['_____________________________________'], '<hr />'), (['_ _ _ _ a', '', 'a------', '', '---a---'], '<p>_ _ _ _ a</p>\n<p>a------</p>\n<p>---a---</p>'),
+    ([' *-*'], '<p><em>-</em></p>'), (['-one', '', '2.two'], '<p>-one</p>\n<p>2.two</p>'), (['1234567890. not ok'], '<p>1234567890. not ok</p>'),
+    (['-1. not ok'], '<p>-1. not ok</p>'), (['The number of windows in my house is', '14.  The number of doors is 6.'],
+                                           '<p>The number of windows in my house is\n14.  The number of doors is 6.</p>'),
+    (['The number of windows in my house is', '1.  The number of doors is 6.'], '<p>The number of windows in my house is</p>\n<ol>\n<li>The number of doors is 6.</li>\n</ol>'),
+    (['[foo]: /url "title" ok'], '<p>[foo]: /url "title" ok</p>'), (['`` foo ` bar ``'], '<p><code>foo ` bar</code></p>'),
+    (['` `` `'], '<p><code>``</code></p>'), (['`  ``  `'], '<p><code> `` </code></p>'), (['*foo`*`'], '<p>*foo<code>*</code></p>'),
+    (['[not a `link](/foo`)'], '<p>[not a <code>link](/foo</code>)</p>'), (['`foo', '', '`foo``bar``'], '<p>`foo</p>\n<p>`foo<code>bar</code></p>'),
+    (['<http://foo.bar.`baz>`'], '<p><a href="http://foo.bar.%60baz">http://foo.bar.`baz</a>`</p>'),
+    (['```', 'aaa', '~~~', '```'], '<pre><code>aaa\n~~~\n</code></pre>'), (['````', 'aaa', '```', '``````'], '<pre><code>aaa\n```\n</code></pre>'),
+    (['``` ```', 'aaa'], '<p><code> </code>\naaa</p>'), (['~~~ aa ``` ~~~', 'foo', '~~~'], '<pre><code class="language-aa">foo\n</code></pre>'),
+    (['<div>', '*hello*', '         <foo><a>'], '<div>\n*hello*\n         <foo><a>'), (['<a href="foo">', '*bar*', '</a>'], '<a href="foo">\n*bar*\n</a>'),
+    (['<del>*foo*</del>'], '<p><del><em>foo</em></del></p>'), (['<del>', '', '*foo*', '', '</del>'], '<del>\n<p><em>foo</em></p>\n</del>'),
+    (['foo\\', 'baz', '', 'foo       ', 'baz'], '<p>foo<br />\nbaz</p>\n<p>foo<br />\nbaz</p>'), (['foo\\', '', '### foo  '], '<p>foo\\</p>\n<h3>foo</h3>'),
+    (['*foo bar *', '', 'a * foo bar*', '', 'foo*bar*'], '<p>*foo bar *</p>\n<p>a * foo bar*</p>\n<p>foo<em>bar</em></p>'),
+    (['_foo_bar_baz_', '', 'пристаням_стремятся_', '', '__foo, __bar__, baz__'], '<p><em>foo_bar_baz</em></p>\n<p>пристаням_стремятся_</p>\n<p><strong>foo, <strong>bar</strong>, baz</strong></p>'),
+    (['[link](foo(and(bar)))', '', '[link](<foo(and(bar)>)', '', '[link](foo\\(and\\(bar\\))'],
+     '<p><a href="foo(and(bar))">link</a></p>\n<p><a href="foo(and(bar)">link</a></p>\n<p><a href="foo(and(bar)">link</a></p>'),
+    (['[foo *bar](baz*)', '', '*foo [bar* baz]'], '<p><a href="baz*">foo *bar</a></p>\n<p><em>foo [bar</em> baz]</p>'),
+    (['![foo *bar*][]', '', '[foo *bar*]: train.jpg "train & tracks"'], '<p><img src="train.jpg" alt="foo bar" title="train &amp; tracks" /></p>'),
+    (['&nbsp; &amp; &copy; &AElig; &Dcaron;', '', '&#35; &#1234; &#992; &#0;', '', '&nbsp &x; &#; &#x;'],
+     '<p>\xa0 &amp; © Æ Ď</p>\n<p># Ӓ Ϡ \ufffd</p>\n<p>&amp;nbsp &amp;x; &amp;#; &amp;#x;</p>'),
+]
+LEAVES = LEAVES + ['boundary:%d' % i for i in range(len(BOUNDARY))]
 
-def compare(ctx, doc, case, source):
+
+def compare(ctx, doc, case, source, key=None):
     ctx.ev()
     try:
         got = mt.html(doc.text)
@@ -29,7 +63,7 @@ def compare(ctx, doc, case, source):
         ctx.violation('raises', mt.exc_site(e), case, text=doc.text, traceback=mt.tb_text(e))
         return False
     if normalize(got) != normalize(doc.html):
-        ctx.violation('html-differs-from-tree', mechanism(doc), case, text=doc.text, expected=doc.html, observed=got)
+        ctx.violation('html-differs-from-tree', key or mechanism(doc), case, text=doc.text, expected=doc.html, observed=got)
         return False
     for k, v in doc.kinds.items():
         ctx.counters['container_paths'][k] += v
@@ -93,6 +127,9 @@ def make_leaf(g, rng, kind):
         return [p, d] if rng.random() < 0.5 else [d, p]
     if kind == 'list-in-item':
         return [g.para(), g.list_(3, False)]
+    if kind.startswith('boundary:'):
+        lines, html = BOUNDARY[int(kind.split(':')[1])]
+        return [N('custom', lines=list(lines), html=html)]
     raise ValueError(kind)
 
 
@@ -149,7 +186,7 @@ def check_sweep(ctx, leaf, path, variant):
     except AssertionError as e:
         ctx.count('generator', 'sweep case rejected by safety rules: %s' % str(e)[:40])
         return
-    compare(ctx, doc, case, 'sweep')
+    compare(ctx, doc, case, 'sweep', key='sweep leaf=%s under %s' % (leaf, '>'.join(c[0] for c in path) or 'doc') if leaf.startswith('boundary') else None)
 
 
 # ---- known findings: pinned witnesses only (the generator avoids their shapes) ---------------------
